@@ -116,7 +116,7 @@ func main() {
 ''',
 }
 
-REPO_FIXED = ["closures", "parameters"]
+REPO_FIXED = ["closures"]
 REPO_SKIP = {"benchmark", "playground", "src", "agent-example", "stdlib", "stdlib_121", "stdlib-no-effect-constraint",
              "escape-integration", "sample-escape", "with-context", "fromlevee"}
 
@@ -311,7 +311,8 @@ def run(ctx):
             return [(p["name"], pname, [x for x in recs if x["prog"] == p["pattern"]]) for p in plist]
         p = what
         recs, err, rc = optlib.optrun(bins, p["mod"], ["."], os.path.join(p["cfgdir"], "res-%s.ndjson" % pname),
-                                      taint=[os.path.join(p["cfgdir"], n + ".yaml") for n in tnames],
+                                      taint=[os.path.join(p["cfgdir"], n + ".yaml") for n in tnames
+                                             if thorough or n in ("d_eager", "d_ondemand", "d_esc", "d_ma1")],
                                       repeat=R, env_extra={"GOMAXPROCS": gmp}, prefix=prefix, timeout=2400)
         if rc != 0:
             raise Inconclusive("optrun failed on %s/%s (rc %s): %s" % (p["mod"], pname, rc, err[-1500:]))
